@@ -2,9 +2,15 @@
    Proved here: closing the pending-call table empties it and cancels every entry; in the repaired
    tree a woken waiter can always hand over its result and proceed to free its entry, whatever the
    caller did (the D2 leak is impossible); the tree as found leaves the waiter blocked forever.
-   The global statement (every infrastructure thread finished at quiescence after teardown) is
-   decided by the teardown monitor + goroutine-dump check of the run, not proved (level note). *)
-From Verif Require Import Base Link LinkProofs.
+   The global statement is [teardown_leaves_nothing]: in EVERY reachable state of the link model
+   (any schedule, fault sequence, peer behaviour, any number of calls in flight) in which the link
+   context is cancelled, no reader loop still sits in a read and no goroutine can run on by itself,
+   every goroutine other than the application's own (Link's caller; handlers still inside
+   application code) has exited, the pending-call table and the closure table are empty, no call is
+   in flight and the remote is no longer enumerated.  [teardown_premises_met] exhibits such a state
+   reached with two calls in flight, a gated handler and a late response.
+   Goroutine count / memory of the real process are observed by the teardown monitor of the run. *)
+From Verif Require Import Base Link LinkProofs LinkInvC LinkInvT.
 
 Theorem close_empties_table :
   forall s, tbl (do_close s) = [] /\ bclosed (do_close s) = true /\
@@ -52,3 +58,26 @@ Proof.
   eexists. eexists. split; [vm_compute; reflexivity|]. split; [reflexivity|]. intros b. reflexivity.
 Qed.
 Print Assumptions D2_refuted.
+
+(* the global statement, over every reachable state *)
+Theorem teardown_leaves_nothing :
+  forall calls s,
+    lreachable fixed calls s ->
+    memN 0%N (cancelled s) = true ->
+    reads_failed s ->
+    quiescent s ->
+    (forall t st, tget (threads s) t = Some st -> t <> TLink -> app_code st = true \/ status_of st = LDone) /\
+    tbl s = [] /\ bclosed s = true /\
+    (forall i, holding (tget (threads s) (TCall i)) = false) /\ closures s = [] /\
+    remotes s = 0.
+Proof. exact teardown_clean_lemma. Qed.
+Print Assumptions teardown_leaves_nothing.
+
+Theorem teardown_premises_are_met :
+  exists s, lrun fixed td_calls linit td_schedule = Some s /\
+            memN 0%N (cancelled s) = true /\ reads_failed s /\ quiescent s /\
+            tget (threads s) (THandler 0) = Some (HGate 5%N) /\
+            tget (threads s) (TCall 0) <> None /\ tget (threads s) (TCall 1) <> None /\
+            tget (threads s) TLink = Some LReturned.
+Proof. exact teardown_premises_met. Qed.
+Print Assumptions teardown_premises_are_met.
